@@ -17,6 +17,7 @@ def main():
     ap.add_argument("--tier", default=os.environ.get("VERIF_TIER", "quick"), choices=["quick", "thorough"])
     ap.add_argument("--repo", default=None, help="analyse this crate directory instead of /repo (self-validation)")
     ap.add_argument("--tag", default="repo")
+    ap.add_argument("--no-evidence", action="store_true", help="self-validation runs: do not touch evidence/")
     a = ap.parse_args()
     prop = a.prop.upper()
     seed = int(os.environ.get("VERIF_SEED", "0") or 0)
@@ -30,7 +31,7 @@ def main():
         if a.repo:
             kw = {"repo": a.repo, "tag": a.tag}
         rep = mod.run(a.tier, **kw)
-        return rep.finish(seed)
+        return rep.finish(seed, write=not a.no_evidence)
     except Exception:
         traceback.print_exc()
         print("CHECK-ERROR property=%s (internal error; no verdict)" % prop)
